@@ -23,6 +23,19 @@ def step(ctx, p):
         ctx.require(False, clause)
     for clause in sorted(set(nets.inv_D_public(D))):
         ctx.require(False, clause)
+    # every prefix: one further automatic addition from the reached state
+    nets.reencode(D)
+    x, y = ctx.fresh("x"), ctx.fresh("x")
+    ctx.assume(x != y, *[x != n for n in D._node], *[y != n for n in D._node])
+    try:
+        with __import__("warnings").catch_warnings():
+            __import__("warnings").simplefilter("ignore")
+            D.add_edge(([x], [y]))
+            D.add_edges_from([([y], [x])])
+    except Exception:
+        pass
+    for clause in sorted(set(nets.inv_D(D))):
+        ctx.require(False, "after a follow-up automatic addition: " + clause)
 
 
 @harness("C02.base")
